@@ -167,6 +167,85 @@ Theorem C17_pack_any_schedule_partial : forall lim sched f st cap,
 Proof. exact pack_any_schedule. Qed.
 Print Assumptions C17_pack_any_schedule_partial.
 
+(* The same WITHOUT the assumption, for the node's call discipline: MarkExecuted / UnMarkExecuted run only
+   under the chain WRITE lock, PackForCast only under the chain READ lock (lock order chain -> pool; [cstep]
+   adds the RW lock to the steps above).  For every schedule: while any thread holds the read lock -- in
+   particular at every PackForCast -- no MarkExecuted is between its halves ... *)
+Theorem C17_chain_lock_excludes : forall lim sched,
+  let s := crun lim cinit sched in cr s <> [] -> mark_idle (ls s).
+Proof. exact readers_mark_idle. Qed.
+Print Assumptions C17_chain_lock_excludes.
+
+(* ... hence every batch packed by a read-lock holder, under any schedule, has the packing properties. *)
+Theorem C17_pack_any_schedule : forall lim sched f st cap,
+  p018 f = true -> p023 f || p021 f = true ->
+  let s := crun lim cinit sched in
+  cr s <> [] ->
+  let p := pack f st cap (lpool (ls s)) in
+  NoDup (hashes p) /\ N.of_nat (length p) <= cap /\ incl p (received (lpool (ls s))) /\
+  (forall t, In t p -> ~ In (thash t) (exec_keys (lpool (ls s)))) /\
+  StronglySorted asc_rel p /\ not_ahead st p.
+Proof. exact pack_chain_schedule. Qed.
+Print Assumptions C17_pack_any_schedule.
+
+(* The evicted-hash cache (LRU, 1000 entries, modelled with its bound and recency order) is write-only:
+   whatever it contains -- so in particular whatever the LRU has dropped -- every later add result, every
+   pending list, every executed store and every packed batch is the same.  Eviction from the cache can
+   therefore never make an executed transaction admissible again. *)
+Theorem C17_evicted_irrelevant : forall lim ops s ev' t f st cap,
+  let s' := mkPool (received s) (executed s) ev' in
+  (received (run lim s ops) = received (run lim s' ops) /\
+   executed (run lim s ops) = executed (run lim s' ops)) /\
+  snd (add lim (run lim s ops) t) = snd (add lim (run lim s' ops) t) /\
+  pack f st cap (run lim s ops) = pack f st cap (run lim s' ops).
+Proof. exact evicted_irrelevant. Qed.
+Print Assumptions C17_evicted_irrelevant.
+
+(* MarkExecuted's calling convention.  The call goes through (does not panic) exactly when every receipt's
+   hash is the hash of some block transaction; it is then mark_executed of the transactions found for the
+   receipts (so every theorem about mark_executed applies with hashes = the receipt hashes), and a pending
+   block transaction without a receipt that is not in the evicted list stays pending and is not recorded. *)
+Theorem C17_mark_call : forall s rc txs ev,
+  ((forall h, In h rc -> In h (hashes txs)) <-> mark_call s rc txs ev <> None) /\
+  (forall s', mark_call s rc txs ev = Some s' ->
+     (exists l, s' = mark_executed s l ev /\ hashes l = rc /\ incl l txs) /\
+     (forall t, In t (received s) -> ~ In (thash t) rc -> ~ In (thash t) ev ->
+        In t (received s') /\ (In (thash t) (exec_keys s') -> In (thash t) (exec_keys s)))).
+Proof.
+  intros. split; [apply mark_call_spec|]. intros s' H. split; [apply (proj2 (mark_call_spec s rc txs ev)); exact H|].
+  intros t. apply (mark_call_unreceipted s rc txs ev s' t H).
+Qed.
+Print Assumptions C17_mark_call.
+
+(* Clear: pending emptied, evicted cache kept, executed store SWAPPED for another one; the visible state
+   keeps the invariant (so the packing theorems hold for it) ... *)
+Theorem C17_clear_effect : forall lim ops ns,
+  let s := xrun lim xinit ops in
+  let s' := xstep lim s (XClear ns) in
+  inv (xp s') /\ received (xp s') = [] /\ evicted (xp s') = evicted (xp s) /\
+  (detached s = false -> executed (xp s') = ns /\ oldstore s' = executed (xp s)).
+Proof.
+  intros. split; [apply xstep_inv; apply xrun_inv; apply inv_empty|].
+  destruct (clear_effect lim (xrun lim xinit ops) ns) as [A [B [_ C]]]. auto.
+Qed.
+Print Assumptions C17_clear_effect.
+
+(* ... but at-most-once does not survive it: a transaction executed before a Clear is admitted and packed
+   again after it, and a block marked executed after a Clear is recorded where nobody looks, so its
+   transactions are admitted again at once.  (Clear has no caller in the node; listed finding.) *)
+Theorem C17_clear_refuted : exists lim t u f st cap,
+  let s1 := xrun lim xinit [XOp (OAdd t); XOp (OMark [t] []); XClear []] in
+  let s2 := xrun lim s1 [XOp (OAdd u); XOp (OMark [u] [])] in
+  In (thash t) (map fst (oldstore s1)) /\
+  add lim (xp s1) t = (xp (xstep lim s1 (XOp (OAdd t))), AOk) /\
+  In t (pack f st cap (xp (xstep lim s1 (XOp (OAdd t))))) /\
+  In (thash u) (map fst (oldstore s2)) /\ snd (add lim (xp s2) u) = AOk.
+Proof.
+  exists 10, (mkTx 5 1 0 0), (mkTx 6 1 1 0), (mkFlags true true true true), (fun _ => 1), 200.
+  exact clear_forgets.
+Qed.
+Print Assumptions C17_clear_refuted.
+
 (* Background expiry modelled exactly (ring counter per pending entry, growRing tick): every timed history
    reaches a state of the untimed semantics (a tick is an OExpire of the entries that reached ring 5), so
    all theorems above cover it. *)
@@ -218,3 +297,16 @@ Example C17_example_schedule :
    let s4 := trun 10 (mkT empty []) [TOp (OAdd a); TTick; TOp (OAdd b); TTick; TTick; TTick] in
    received (tp s4) = [a; b] /\ received (tp (tstep 10 s4 TTick)) = [b]).
 Proof. vm_compute. repeat split; auto. Qed.
+
+(* Non-vacuity of the chain-lock theorems: a proposer holding the read lock makes the block writer wait; a
+   MarkExecuted in flight makes the proposer wait; and the LRU drops its oldest entry at the bound. *)
+Example C17_example_chain :
+  let t := mkTx 5 1 0 0 in
+  let a := crun 100 cinit [CL (LOp (OAdd t)); CR 7; CW 2; CL (LMarkW 2 [t] [])] in
+  let b := crun 100 cinit [CL (LOp (OAdd t)); CW 2; CL (LMarkW 2 [t] []); CR 7; CWU 2; CL (LMarkR 2); CWU 2; CR 7] in
+  cr a = [7] /\ cw a = None /\ in_executed (lpool (ls a)) (thash t) = false /\
+  cr b = [7] /\ cw b = None /\ received (lpool (ls b)) = [] /\ in_executed (lpool (ls b)) (thash t) = true /\
+  length (lru_adds [] (map N.of_nat (seq 0 1001))) = 1000%nat /\
+  memN 0 (lru_adds [] (map N.of_nat (seq 0 1001))) = false /\
+  memN 1 (lru_adds [] (map N.of_nat (seq 0 1001))) = true.
+Proof. vm_compute. repeat split; reflexivity. Qed.
